@@ -79,6 +79,8 @@ def generate(seed, tier, batch):
         fams += ["ThermalLossChannel", "MSgate"]
     if backend == "gaussian" and n == 1:
         fams += ["ThermalLossChannel"]
+    if backend == "gaussian":
+        fams += ["GaussianTransform", "Interferometer"]  # single-mode matrix operations (Decomposition.merge multiplies the matrices)
     nbar = rnd(r, 0, 0.5)
     # input state
     ops = []
@@ -100,6 +102,13 @@ def generate(seed, tier, batch):
             run_len = r.randint(1, 4)
             first = None
             for j in range(run_len):
+                if f in ("GaussianTransform", "Interferometer"):
+                    o = {"op": f, "useed": r.randrange(1 << 20) if not (f == "Interferometer" and r.random() < 0.25) else -1, "m": [m]}
+                    if f == "Interferometer" and r.random() < 0.3:
+                        o["kw"] = {"drop_identity": r.random() < 0.5}
+                    ops.append(o)
+                    k += 1
+                    continue
                 p = FAMILIES[f](r, s)
                 if f == "ThermalLossChannel":
                     p[1] = nbar if r.random() < 0.8 else rnd(r, 0, 0.5)
